@@ -136,7 +136,7 @@ def async_discovery_model(ctx, repo, rule, rule_filter=None):
         raise AnalysisError(f"discovery timeouts not resolved: initial {T_INIT!r}, overall {T_MAX!r}")
     A, B = (b"SPA-A", "Spa A", ("10.0.0.5", 10022)), (b"SPA-B", "Spa B", ("10.0.0.6", 10022))
 
-    def run(kwargs, script):
+    def run(kwargs, script, cancel_at=None):
         st = {"clock": 100.0, "cb": None, "closed": 0, "cancelled": [], "events": [], "sleeps": 0, "tasks": []}
         pending = sorted(script, key=lambda x: x[0])
         it = Interp(repo, max_depth=14)
@@ -177,6 +177,8 @@ def async_discovery_model(ctx, repo, rule, rule_filter=None):
                 st["sleeps"] += 1
                 if st["sleeps"] > 5000:
                     raise PyRaise("model: discover() did not return")
+                if cancel_at is not None and st["sleeps"] == cancel_at:
+                    raise PyRaise("asyncio.CancelledError", node)   # the caller gives up: cancellation is delivered at this await
                 st["clock"] += float(args[0]) if args and isinstance(args[0], (int, float)) and args[0] > 0 else 0.05
                 deliver()
                 return None
@@ -229,6 +231,14 @@ def async_discovery_model(ctx, repo, rule, rule_filter=None):
         ctx.ob(rule, f"{L}::{key}::endpoint-closed-and-helpers-cancelled", st["closed"] >= 1 and bool(st["cancelled"]) and all(k_ in st["cancelled"] for _n, k_ in st["tasks"]),
                f"{L}.discover returns with transport.close() called {st['closed']} time(s), helper tasks started under {sorted({str(k_) for _n, k_ in st['tasks']})}, domains cancelled {st['cancelled']}", d.loc)
     ctx.floor(rule, "awaitable discovery runs interpreted", n, 8)
+    # cancelled while waiting (the manager exits, or a wait_for around discover() times out): the endpoint is closed and the
+    # helper tasks' domain cancelled all the same, and the cancellation is not swallowed
+    for k in (1, 7):
+        t, _spas, st = run({}, [(0.2, A)], cancel_at=k)
+        ctx.ob(rule, f"{L}::cancelled-at-wait-{k}::endpoint-closed-and-helpers-cancelled",
+               isinstance(t, str) and "CancelledError" in t and st["closed"] >= 1 and bool(st["cancelled"]) and all(k_ in st["cancelled"] for _n, k_ in st["tasks"]),
+               f"{L}.discover() cancelled at its {k}{'st' if k == 1 else 'th'} wait: outcome {t!r}, transport.close() called {st['closed']} time(s), helper tasks under "
+               f"{sorted({str(k_) for _n, k_ in st['tasks']})}, domains cancelled {st['cancelled']} - expected the CancelledError to propagate after closing the endpoint and cancelling the helper tasks", d.loc)
 
 
 def blocking_discovery_model(ctx, repo, rule):
@@ -424,7 +434,10 @@ def check(ctx):
     closers = [n for n, c in calls_named(gd, "close") if receiver(c) == "self._transport"]
     cancels = [n for n, c in calls_named(gd, "cancel_key_tasks") if c.args and repo.try_fold(c.args[0]) == "LOC"]
     acq = [n for n in gd.stmt_nodes() if "create_datagram_endpoint" in n.text()]
-    ctx.ob("R5", f"{d.qual}::closes", bool(closers) and bool(cancels) and bool(acq), f"{d.qual}: transport close / LOC cancel missing", d.loc)
+    # path rules over the awaits of discover() when the close / cancel calls are visible in it; in any shape the
+    # discovery model (R9) decides the normal and the cancelled exits
+    if not (closers and cancels and acq):
+        ctx.note(f"{d.qual}: transport close / LOC cancel not visible as calls in the function body - decided on the discovery model (normal and cancelled runs)")
     if closers and cancels and acq:
         from .c10 import _escapes
         for kind, rel in (("close", closers), ("cancel-LOC", cancels)):
@@ -452,5 +465,5 @@ def check(ctx):
     ctx.rule("R8", "the blocking locator's discovery run, interpreted end to end on a model socket and clock with scripted replies: it returns as soon as the requested spa (by text or bytes identifier, or by address) has answered and not when another spa answers first, otherwise after the initial wait once any spa has answered, at the latest at the discovery timeout; each spa is listed once with identifier, name and address intact; the socket is closed on return")
     blocking_discovery_model(ctx, repo, "R8")
     ctx.rule("R9", "the awaitable locator's discovery run, interpreted end to end on a model event loop and clock with scripted replies (eight scripts): lists only the requested identifier when one is given, each spa once with its fields intact and one discovered-spa event each; returns as soon as the requested spa (or the spa at the given address) has answered, otherwise after the initial wait once any spa has answered, at the latest at the discovery timeout; empty strings mean no request; the endpoint is closed and the helper tasks' domain cancelled on return")
-    async_discovery_model(ctx, repo, "R9", rule_filter="R2")
+    async_discovery_model(ctx, repo, "R9", rule_filter="R2")   # also files the cancelled-run obligations of R5's clause under R9
     ctx.assume("asyncio runs one callback at a time (cooperative scheduling)")
